@@ -31,6 +31,9 @@ func VerifC07Valid() {
 		}
 		nd.Assert(nd.Implies(nd.Not(ok), err != nil), fmt.Sprintf("file %d: an unparseable result was not reported as a failure", i))
 	}
+	// the ghost bit belongs to the bytes the printer produced for that file:
+	// whatever is emitted must be exactly those bytes (after import processing)
+	frAssertOwnBytes(e)
 	nd.Reach("done")
 }
 
